@@ -76,7 +76,19 @@ class MaxSummary:
         arr = np.asarray(a)
         if arr.dtype != object or not any(is_sym(v) for v in arr.ravel()):
             return np.max(a, *args, **kw)
-        s = fresh("norm_", "pos")
+        # a function of the (linear-space) array contents: the same array in a linear and a
+        # logarithmic run gets the same normaliser symbol
+        from symx import ctx as _c
+        from symx.dom import Q
+        key = tuple((v.q.key() if isinstance(v, LogQ) else
+                     (Q.of(v).key() if not isinstance(v, float) or v == v and abs(v) != math.inf
+                      else repr(v))) if not (isinstance(v, float) and self._log) else
+                    (Q.of(0).key() if v == -math.inf else repr(v))
+                    for v in arr.ravel())
+        memo = _c.cur().uf_memo.setdefault("norm", {})
+        s = memo.get(key)
+        if s is None:
+            s = memo[key] = fresh("norm_", "pos")
         return LogQ.of_q(s) if self._log else s
 
 
@@ -84,24 +96,32 @@ class Env:
     pass
 
 
-def setup(ctx, ts, G, space, zero_first=True, tag="", max_summary=True, eps_sym=True):
-    """Context manager: patched modules + symbolic priors/likelihood for `ts`."""
+def setup(ctx, ts, G, space, zero_first=True, tag="", max_summary=True, eps_sym=True,
+          build="bp", node_name=None, patch_core=False):
+    """Context manager: patched modules + symbolic priors/likelihood for `ts`.
+
+    build: "bp" (Likelihoods + BeliefPropagation built here), "method" (only priors; the
+    harness drives core.*Method.run), or "priors".  node_name maps a node id to the name used
+    in its prior symbols (relational runs share symbols between renumbered inputs)."""
     import contextlib
     from symx import load
     from symx.dom import sym, Q
 
     discrete = load.tsdate_module("discrete")
     ntc = load.tsdate_module("node_time_class")
+    core = load.tsdate_module("core")
+    node_name = node_name or (lambda u: str(u))
 
     @contextlib.contextmanager
     def cm():
-        with load.patched(discrete, ntc, extra={discrete: {"scipy": ScipyStub}}) as npx:
+        mods = (discrete, ntc, core) if (patch_core or build == "method") else (discrete, ntc)
+        with load.patched(*mods, extra={discrete: {"scipy": ScipyStub}}) as npx:
             env = Env()
-            env.discrete, env.ntc, env.npx = discrete, ntc, npx
+            env.discrete, env.ntc, env.npx, env.core = discrete, ntc, npx, core
             log = space == ntc.LOG_GRID
+            env.log = log
             if max_summary:
-                ms = MaxSummary(npx, log)
-                discrete.np = ms
+                discrete.np = MaxSummary(npx, log)
             tp = np.empty(G, dtype=object)
             tp[0] = 0.0
             acc = Q(Fraction(0))
@@ -112,8 +132,10 @@ def setup(ctx, ts, G, space, zero_first=True, tag="", max_summary=True, eps_sym=
             env.mu = sym("mu", "pos")
             env.eps = sym("eps", "pos") if eps_sym else 0
             samples = [int(u) for u in ts.samples()]
-            nonfixed = np.array([u for u in range(ts.num_nodes) if u not in samples],
-                                dtype=np.int64)
+            # same row order as prior.fill_priors: non-sample nodes by increasing input time
+            datable = np.array([u for u in range(ts.num_nodes) if u not in samples],
+                               dtype=np.int64)
+            nonfixed = datable[np.argsort(ts.nodes_time[datable], kind="stable")]
             env.nonfixed = nonfixed
             pri = ntc.NodeTimeValues(ts.num_nodes, nonfixed, tp)
             cells = {}
@@ -123,25 +145,41 @@ def setup(ctx, ts, G, space, zero_first=True, tag="", max_summary=True, eps_sym=
                     if g == 0 and zero_first:
                         row[g] = 0.0
                     else:
-                        row[g] = sym(f"{tag}pr{u}_{g}", "pos")
+                        row[g] = sym(f"{tag}pr{node_name(int(u))}_{g}", "pos")
                     cells[(int(u), g)] = row[g]
                 pri[u] = row
             env.prior_cells = cells
             env.priors = pri
             cls = discrete.LogLikelihoods if log else discrete.Likelihoods
-            if log:
-                env._saved_lse = discrete.LogLikelihoods.logsumexp
-                discrete.LogLikelihoods.logsumexp = staticmethod(logsumexp_summary)
+            saved_lse = discrete.LogLikelihoods.__dict__["logsumexp"]
+            discrete.LogLikelihoods.logsumexp = staticmethod(logsumexp_summary)
             try:
-                lik = cls(ts, tp, env.mu, None, eps=env.eps, fixed_node_set=set(samples))
-                lik.precalculate_mutation_likelihoods()
-                env.lik = lik
-                env.bp = discrete.BeliefPropagation(pri, lik)
+                if build == "bp":
+                    lik = cls(ts, tp, env.mu, None, eps=env.eps, fixed_node_set=set(samples))
+                    lik.precalculate_mutation_likelihoods()
+                    env.lik = lik
+                    env.bp = discrete.BeliefPropagation(pri, lik)
                 yield env
             finally:
-                if log:
-                    discrete.LogLikelihoods.logsumexp = env._saved_lse
+                discrete.LogLikelihoods.logsumexp = saved_lse
     return cm()
+
+
+def make_method(env, ts, kind):
+    """core.InsideOutsideMethod / MaximizationMethod instance without running __init__
+    (which needs a population size and builds real priors)."""
+    cls = {"inside_outside": env.core.InsideOutsideMethod,
+           "maximization": env.core.MaximizationMethod}[kind]
+    m = object.__new__(cls)
+    m.ts = ts
+    m.priors = env.priors
+    m.mutation_rate = env.mu
+    m.recombination_rate = None
+    m.pbar = False
+    m.provenance_params = None
+    m.return_fit = True
+    m.return_likelihood = True
+    return m
 
 
 def brute_force(ts, env):
@@ -153,7 +191,7 @@ def brute_force(ts, env):
     tp = env.timepoints
     samples = set(int(u) for u in ts.samples())
     internal = [int(u) for u in env.nonfixed]
-    mut_edges = env.lik.mut_edges
+    mut_edges = env.lik.mut_edges if hasattr(env, "lik") else env.discrete.Likelihoods.get_mut_edges(ts)
     edges = [(e.id, e.parent, e.child, e.span) for e in ts.edges()]
     W = {(u, g): Q(Fraction(0)) for u in internal for g in range(G)}
     Z = Q(Fraction(0))
